@@ -7,17 +7,18 @@ Require Import Base.Py Base.ZList Gen.Gen_tags Model.Splice Model.Fam_carrier Mo
   Proofs.Fam_iff_codec Proofs.Fam_iff_chunks Proofs.Fam_dsf_lemmas Proofs.Fam_dsf_props Proofs.Fam_carrier_lemmas Proofs.Fam_dsf_c09.
 Open Scope Z_scope.
 
-(* the callback receives (old tag extent - needed, old tag extent); 0 when the tag is created at EOF *)
+(* the callback receives (old tag extent - needed, 0): the extent is 0 when the tag is created at EOF, and nothing
+   follows the tag *)
 Theorem C09_dsf_callback_arguments : forall f s fd ver cb f', dsf_parse f = Ok s -> dsf_save_cb f fd ver cb = Ok f' ->
   let avail := zlen (tag_bytes (d_tag s)) in
-  exists tag, id3_prepare fd ver cb avail avail = Ok tag /\ dsf_save f tag = Ok f'.
+  exists tag, id3_prepare fd ver cb avail 0 = Ok tag /\ dsf_save f tag = Ok f'.
 Proof. exact dsf_save_cb_decompose. Qed.
 Print Assumptions C09_dsf_callback_arguments.
 
 (* measured in the saved file: exactly p = callback result zero bytes after the frame data, to EOF *)
 Theorem C09_dsf_measured : forall f s fd ver cb f', dsf_parse f = Ok s -> dsf_save_cb f fd ver cb = Ok f' ->
   let avail := zlen (tag_bytes (d_tag s)) in
-  let p := cb (avail - (zlen fd + 10)) avail in
+  let p := cb (avail - (zlen fd + 10)) 0 in
   0 <= p /\ exists sz, zlen sz = 4 /\
     zdrop (28 + zlen (d_audio s)) f' = ID3_MAGIC ++ [ver; 0; 0] ++ sz ++ fd ++ zeros p /\
     zlen f' = 28 + zlen (d_audio s) + zlen fd + 10 + p.
@@ -33,7 +34,7 @@ Print Assumptions C09_dsf_measured.
 
 (* returning info.padding (>= 0): same file size, every byte before the pointer (header fields included) unchanged *)
 Theorem C09_dsf_keep : forall f s t0 fd ver cb f', dsf_parse f = Ok s -> d_tag s = Some t0 ->
-  cb (zlen t0 - (zlen fd + 10)) (zlen t0) = zlen t0 - (zlen fd + 10) -> dsf_save_cb f fd ver cb = Ok f' ->
+  cb (zlen t0 - (zlen fd + 10)) 0 = zlen t0 - (zlen fd + 10) -> dsf_save_cb f fd ver cb = Ok f' ->
   zlen f' = zlen f /\ ztake (28 + zlen (d_audio s)) f' = ztake (28 + zlen (d_audio s)) f.
 Proof.
   intros f s t0 fd ver cb f' Hp Ht Hk Hsv.
@@ -47,7 +48,7 @@ Definition ex_fmt : list Z := le_encode 4 1 ++ le_encode 4 0 ++ le_encode 4 2 ++
   le_encode 4 1 ++ le_encode 8 0 ++ le_encode 4 4096 ++ le_encode 4 0.
 Definition ex_dsf : list Z := dsf_build ex_fmt [5] (Some ([73; 68; 51; 4; 0; 0; 0; 0; 0; 30] ++ zeros 30)).
 Definition ex_fd : list Z := [84; 73; 84; 50; 0; 0; 0; 2; 0; 0; 3; 65].
-Example C09_dsf_ex_info : match dsf_target ex_dsf with Ok pa => dsf_padinfo pa ex_fd = (40 - 22, 40) | Raise _ => False end.
+Example C09_dsf_ex_info : match dsf_target ex_dsf with Ok pa => dsf_padinfo ex_dsf pa ex_fd = (40 - 22, 0) | Raise _ => False end.
 Proof. vm_compute. reflexivity. Qed.
 Example C09_dsf_ex_keep : match dsf_save_cb ex_dsf ex_fd 4 cb_keep with Ok f' => zlen f' = zlen ex_dsf /\ dsf_wf f' = true | Raise _ => False end.
 Proof. vm_compute. split; reflexivity. Qed.
